@@ -196,10 +196,9 @@ class Option(Evaluatable[A]):
         """
         if dotted_key_exists(self.key, options):
             value = get_dotted_key(self.key, options)
-            if isinstance(value, str):
-                return {self.key} | Template(value).keys(options)
-            else:
-                return {self.key}
+            return {self.key}.union(
+                *(Template(text).keys(options) for text in _templated_strings(value))
+            )
         elif self.default is not MISSING:
             return self.default.keys(options)
         else:
@@ -210,10 +209,9 @@ class Option(Evaluatable[A]):
         options = options or {}
         if dotted_key_exists(self.key, options):
             value = get_dotted_key(self.key, options)
-            if isinstance(value, str):
-                return {self.key} | Template(value).explain(options)
-            else:
-                return {self.key}
+            return {self.key}.union(
+                *(Template(text).explain(options) for text in _templated_strings(value))
+            )
         elif self.default is not MISSING:
             return self.default.explain(options)
         else:
@@ -336,6 +334,17 @@ class Option(Evaluatable[A]):
         new: Dict[str, JSON] = {}
         set_dotted_key(self.key, value, new)
         return mix(options, new)  # type: ignore
+
+
+def _templated_strings(value: Any) -> List[str]:
+    """All strings found in a (possibly nested) option value."""
+    if isinstance(value, str):
+        return [value]
+    if isinstance(value, Mapping):
+        return [s for item in value.values() for s in _templated_strings(item)]
+    if isinstance(value, list):
+        return [s for item in value for s in _templated_strings(item)]
+    return []
 
 
 class WithOptions(Evaluatable[B]):
